@@ -104,6 +104,9 @@ func scanLong(comment bool) stateFn {
 				break OpeningLoop
 			default:
 				if comment {
+					// Not a long comment after all.  The character may be
+					// the end of the line, i.e. of the short comment.
+					l.backup()
 					l.ignore()
 					return scanShortComment
 				}
